@@ -151,7 +151,7 @@ func (s *Solver) Solve(u *Unit, o *Obligation) *Result {
 			ms             int64
 		}
 		ch := make(chan res, len(specs))
-		ctx2, cancel2 := context.WithTimeout(context.Background(), time.Duration(s.timeoutS+2)*time.Second)
+		ctx2, cancel2 := context.WithCancel(context.Background())
 		for _, sp := range specs {
 			sp := sp
 			go func() {
@@ -162,7 +162,13 @@ func (s *Solver) Solve(u *Unit, o *Obligation) *Result {
 					pth = scriptALL
 					sp.Cmd = append(sp.Cmd, "--produce-models")
 				}
-				a, o, m := runOne(ctx2, sp, pth)
+				if ctx2.Err() != nil {
+					ch <- res{"cancelled", "", sp.Name, 0}
+					return
+				}
+				ctx3, cancel3 := context.WithTimeout(ctx2, time.Duration(s.timeoutS+2)*time.Second)
+				a, o, m := runOne(ctx3, sp, pth)
+				cancel3()
 				ch <- res{a, o, sp.Name, m}
 			}()
 		}
